@@ -37,6 +37,9 @@ structure Tables where
   sdlEmptyTokenSpins : Bool
   exeVarTypeOptional : Bool
   opFallbackAnyName : Bool
+  nullVarUsesDefault : Bool
+  listNotCoerced : Bool
+  symbolUnchecked : Bool
   fieldPosAfterLookahead : Bool
   opErrPosAfterLookahead : Bool
   leafErrNulls : Bool
